@@ -226,17 +226,18 @@ def program(backend: str, r: Dict[str, Any], events: List[Dict[str, Any]]) -> st
     src += "#include <cstring>\n#include <cstdlib>\n"
     for k, ev in enumerate(events):
         src += f"static void load_{k}() {{\n"
-        for b in ev["banks"]:
+        for bi, b in enumerate(ev["banks"]):
             coll = next(c for c in qgen.COLLS if qgen.cont_type(backend, c) == b["type"])
             t = qgen.COLLS[coll]
             objs = ", ".join(cxx_obj(o, ns) for o in b["content"]["v"])
-            var = "b_" + "".join(ch for ch in b["bank"] if ch.isalnum())
+            var = f"b{bi}_" + "".join(ch for ch in b["bank"] if ch.isalnum())
+            bank_lit = '"' + "".join({"\\": "\\\\", '"': '\\"', "?": "\\?"}.get(ch, ch) for ch in b["bank"]) + '"'
             src += f"    static std::vector<{ns}::{t}> {var}_{k} = {{{objs}}};\n"
             if backend == "atlas":
                 src += f"    static {ns}::{t}Container {var}_c{k}; if ({var}_c{k}.empty()) for (auto& x : {var}_{k}) {var}_c{k}.push_back(&x);\n"
-                src += f'    g_store.banks["{b["bank"]}"] = {{"{b["type"]}", &{var}_c{k}}};\n'
+                src += f'    g_store.banks[{bank_lit}] = {{"{b["type"]}", &{var}_c{k}}};\n'
             else:
-                src += f'    iEvent.banks["{b["bank"]}"] = &{var}_{k};\n'
+                src += f'    iEvent.banks[{bank_lit}] = &{var}_{k};\n'
         src += "}\n"
     src += "static bool run_event(int k) {\n  bool faulted = false;\n  switch (k) {\n"
     for k in range(len(events)):
